@@ -31,7 +31,7 @@ if [ "$ok" = yes ]; then
     v=MISSED; [ $rc -eq 1 ] && echo "$out" | grep -q "^VIOLATION property=$p " && v=DETECTED; [ $rc -eq 2 ] && v=HARNESS-ERROR
     sig=$(echo "$out" | grep -m1 "signature:" | sed 's/^ *signature: //')
     echo "  $p quick: $v $sig"
-    res="$res{\"property\":\"$p\",\"tier\":\"quick\",\"verdict\":\"$v\",\"signature\":\"$sig\"},"
+    res="$res$(jq -cn --arg p "$p" --arg v "$v" --arg s "$sig" '{property:$p,tier:"quick",verdict:$v,signature:$s}'),"
   done
   git -C /repo checkout -- . ; git -C /repo clean -fdq
 fi
